@@ -37,7 +37,7 @@ def run_layer_b(prop, spec):
 
     def go(args):
         d, hs = args
-        return K.run_cargo_kani(d, hs, timeout=2400, extra_flags=flags) if hs else ({}, {}, "", 0)
+        return K.run_cargo_kani(d, hs, timeout=int(os.environ.get("VERIF_HARNESS_TIMEOUT", "2400")), extra_flags=flags) if hs else ({}, {}, "", 0)
 
     with cf.ThreadPoolExecutor(max_workers=2) as ex:
         (res_c, outs_c, cmd, _), (res_p, outs_p, cmd_p, _) = list(ex.map(go, [(dc, contract_names), (dp, plain_names)]))
@@ -160,7 +160,7 @@ def main(prop, cfg):
         return run_layer_b(prop, spec)
 
     def do_c():
-        return LC.run_defs(defs, C.TIER, timeout=cfg.get("timeout", 2400)) if defs else []
+        return LC.run_defs(defs, C.TIER, timeout=int(os.environ.get("VERIF_HARNESS_TIMEOUT", cfg.get("timeout", 2400)))) if defs else []
 
     with cf.ThreadPoolExecutor(max_workers=2) as ex:
         fb, fc = ex.submit(do_b), ex.submit(do_c)
@@ -233,6 +233,27 @@ def main(prop, cfg):
         "functions_under_contract": breport + (vsum["functions_under_contract"] if vsum else []),
         "exhaustive": False,
     }
+    # mechanical scan for assumption constructs in what Kani actually compiled
+    scan = {}
+    files = set()
+    for row in crows:
+        files.add(os.path.join(row["crate"], "src", "main.rs"))
+    for r in brows:
+        files.add(os.path.join(r["crate"], "src", "lib.rs"))
+    for f in sorted(files):
+        try:
+            txt = open(f).read()
+        except OSError:
+            continue
+        for pat in (r"kani::assume\(", r"kani::stub\(", r"kani::stub_verified\(", r"\bunsafe\b"):
+            hits = [ln.strip()[:160] for ln in txt.split("\n") if re.search(pat, ln) and not ln.strip().startswith("//")]
+            if hits:
+                scan.setdefault(pat.replace("\\", ""), {"count": 0, "distinct_lines": []})
+                scan[pat.replace("\\", "")]["count"] += len(hits)
+                for h in hits:
+                    if h not in scan[pat.replace("\\", "")]["distinct_lines"] and len(scan[pat.replace("\\", "")]["distinct_lines"]) < 12:
+                        scan[pat.replace("\\", "")]["distinct_lines"].append(h)
+    cov["assumption_scan"] = scan
     cov.update(extra_cov)
     rc = C.EXIT_OK
     if violations:
